@@ -221,9 +221,9 @@ func init() {
 		ID: "C29",
 		Explanation: "Decides structural necessary conditions of 'cancellation never yields a wrong parse' on every generated parser package and the hand-written js parse loop: CANCEL: every loop that shifts tokens in a function taking a context polls ctx.Done(); every poll is governed by (sharedCounter & M) == 0 with M = 2^k-1 <= 0x1ff, and all sites of a package use the same mask (an equality+reset at one site is starved by increments at another). " +
 			"ERRFLOW: for every call of a function whose error may be ctx.Err() (computed as a fixpoint from `return ctx.Err()`), the error value reaches a return of the caller — it is neither discarded nor replaced by nil. " +
-			"Not decided: cancellation inside the lexer fetch, equality of events with an uncancelled parse (the poll branch only returns, which is checked by the shape of the select). ERRFLOW(must-return): in the generated ast.Parse wrappers a non-nil parser error (ctx.Err() included) is returned on every path from the err != nil test; no return with another error value is reachable. MONOTONE(poll-counter): the counter whose low bits trigger the poll is only ever advanced by a positive constant; it (or the session holding it) is re-initialised only outside every loop. SOURCE(handler-identity): the generated ast.Parse passes the caller's ErrorHandler to Parser.Init unchanged. USE(ctx.Err): in the parser and ast packages every value of ctx.Err() only travels to a return (it never decides whether events are reported or recovery goes on). ERRFLOW also requires that no other result of a call that may return ctx.Err() is used before the error was found to be nil, unless every return reachable from that use hands the error back.",
-		Rules: []string{"CANCEL", "ERRFLOW", "ERRFLOW(must-return)", "MONOTONE(poll-counter)", "SOURCE(handler-identity)", "USE(ctx.Err)"},
-		Run:   func(c *Ctx) { ruleCANCEL(c); ruleERRFLOW(c); ruleERRMUST(c); rulePOLLCOUNTER(c); ruleHANDLERID(c); ruleCTXERRUSE(c) },
+			"Not decided: cancellation inside the lexer fetch, equality of events with an uncancelled parse (the poll branch only returns, which is checked by the shape of the select). ERRFLOW(must-return): in the generated ast.Parse wrappers a non-nil parser error (ctx.Err() included) is returned on every path from the err != nil test; no return with another error value is reachable. MONOTONE(poll-counter): the counter whose low bits trigger the poll is only ever advanced by a positive constant; it (or the session holding it) is re-initialised only outside every loop. SOURCE(handler-identity): the generated ast.Parse passes the caller's ErrorHandler to Parser.Init unchanged. USE(ctx.Err): in the parser and ast packages every value of ctx.Err() only travels to a return (it never decides whether events are reported or recovery goes on). ERRFLOW also requires that no other result of a call that may return ctx.Err() is used before the error was found to be nil, unless every return reachable from that use hands the error back. TMPL(err-first): in go_parser.go.tmpl the cancellable variant of every predicate chain (lookaheadRule, applyRule) tests and returns the error right after each lookahead call, before the answer is used or the next predicate runs (decided on the template, i.e. for rules with any number of cases).",
+		Rules: []string{"CANCEL", "ERRFLOW", "ERRFLOW(must-return)", "MONOTONE(poll-counter)", "SOURCE(handler-identity)", "USE(ctx.Err)", "TMPL(err-first)"},
+		Run:   func(c *Ctx) { ruleCANCEL(c); ruleERRFLOW(c); ruleERRMUST(c); rulePOLLCOUNTER(c); ruleHANDLERID(c); ruleCTXERRUSE(c); ruleTMPLERRFIRST(c) },
 	})
 }
 
